@@ -105,16 +105,22 @@ def coq(t):
     raise shim.TraceError('emit: not a field term: %r' % (t,))
 
 
+def _kw(op, a, k):
+    # the contracts of Wave.Fields are those of the DEFAULT axes (fft2/ifft2: last two; shifts: all axes, applied
+    # symmetrically); a call with explicit dims / norm / s is a different operator and is not modelled: fail closed
+    raise shim.TraceError('%s called with explicit arguments %r %r (not modelled)' % (op, a, k))
+
+
 class _FFT:
     @staticmethod
     def _f(x):
         if isinstance(x, shim._np.ndarray) and len(x.shape) > 0 and int(shim._np.prod(x.shape)) > 1: return lit(x)
         if not isinstance(x, FT): raise shim.TraceError('fft of a non-field value')
         return x
-    fft2 = staticmethod(lambda x, **k: FT('F', _FFT._f(x), shape=tuple(x.shape)))
-    ifft2 = staticmethod(lambda x, **k: FT('Finv', _FFT._f(x), shape=tuple(x.shape)))
-    fftshift = staticmethod(lambda x, **k: FT('S', _FFT._f(x), shape=tuple(x.shape)))
-    ifftshift = staticmethod(lambda x, **k: FT('Sinv', _FFT._f(x), shape=tuple(x.shape)))
+    fft2 = staticmethod(lambda x, *a, **k: FT('F', _FFT._f(x), shape=tuple(x.shape)) if not a and not k else _kw('fft2', a, k))
+    ifft2 = staticmethod(lambda x, *a, **k: FT('Finv', _FFT._f(x), shape=tuple(x.shape)) if not a and not k else _kw('ifft2', a, k))
+    fftshift = staticmethod(lambda x, *a, **k: FT('S', _FFT._f(x), shape=tuple(x.shape)) if not a and not k else _kw('fftshift', a, k))
+    ifftshift = staticmethod(lambda x, *a, **k: FT('Sinv', _FFT._f(x), shape=tuple(x.shape)) if not a and not k else _kw('ifftshift', a, k))
 
 
 def namespace(extra=None):
